@@ -398,12 +398,14 @@ def gen_flat(rng, g):
                                                  rng.choice(['1', '2', '4'])]}
 
 
-def _own_names(j, root=True):
+def _own_names(j, root=True, leaves=True):
+    """names of the own windows of the non-root nodes (leaves=False: of the non-root INNER nodes only - the loops
+    flatten_and_balance can unroll; a leaf is never unrolled)"""
     s = set()
-    if not root:
+    if not root and (leaves or j['ch']):
         s |= {m[0] for m in j['ms']}
     for c in j['ch']:
-        s |= _own_names(c, False)
+        s |= _own_names(c, False, leaves)
     return s
 
 
@@ -483,7 +485,15 @@ def flat_verdict(case, obs):
             rest.remove(w)
         else:
             return ('bad', '%s reports a window that was not there before: %r' % (case['op'][0], w))
-    inner = _own_names(case['loop'])
+    if case['op'][0] == 'flatten':
+        # round 5: the known class is narrower for flatten_and_balance - only loops it UNROLLED lose windows (an unroll
+        # must have been logged, when the log is available) and only inner nodes can be unrolled, never a leaf
+        inner = _own_names(case['loop'], leaves=False)
+        steps = obs.get('steps')
+        if steps is not None and not any(st[1][0] == 'unroll' for st in steps):
+            return ('bad', 'flatten_and_balance loses windows without unrolling anything: %r' % (rest[:3],))
+    else:
+        inner = _own_names(case['loop'])
     if all(w[0] in inner for w in rest):
         return ('known', '%s drops own windows of inner loops: %r' % (case['op'][0], rest[:3]))
     return ('bad', '%s drops windows of the root loop: %r' % (case['op'][0], rest[:3]))
@@ -525,6 +535,57 @@ def _update_all(loop, consts):
         _update_all(c, consts)
 
 
+def shape_json(loop):
+    """shape and repetition counts of a real Loop (nothing else): what the volatile guard Vol.vwok looks at"""
+    return {'rep': int(loop.repetition_count), 'wf': None, 'ms': [], 'ch': [shape_json(c) for c in loop]}
+
+
+def _stable(a, b):
+    return a['rep'] == b['rep'] and len(a['ch']) == len(b['ch']) and all(_stable(x, y) for x, y in zip(a['ch'], b['ch']))
+
+
+def vwok_py(a, b):
+    """Vol.vwok, for the input-distribution histogram only (the verdict is computed in Coq)"""
+    if len(a['ch']) != len(b['ch']):
+        return False
+    for k, (x, y) in enumerate(zip(a['ch'], b['ch'])):
+        if k < len(a['ch']) - 1:
+            if not _stable(x, y):
+                return False
+        else:
+            kids = len(x['ch']) == len(y['ch']) and all(_stable(u, v) for u, v in zip(x['ch'], y['ch']))
+            if not (vwok_py(x, y) and (kids or b['rep'] == 1)):
+                return False
+    return True
+
+
+def expected_unroll_loss(loop, op):
+    """the exact multiset of windows Loop.unroll() / Loop.unroll_children() is KNOWN to lose (finding
+    rewrite-drops-own-measurements), computed from the hand-built loop: unroll of child i loses every execution of the
+    child's own windows; unroll_children keeps the loop's own windows of the first repetition only"""
+    def dur(j):
+        return body(j) * j['rep']
+
+    def body(j):
+        if not j['ch']:
+            return F(j['wf']) if j['wf'] is not None else F(0)
+        return sum((dur(c) for c in j['ch']), F(0))
+    out = []
+    if op[0] == 'unroll_children':
+        for k in range(1, loop['rep']):
+            out += [(n, F(b) + k * body(loop), F(l)) for n, b, l in loop['ms']]
+    else:
+        i = op[1]
+        if not 0 <= i < len(loop['ch']):
+            return []
+        c = loop['ch'][i]
+        off = sum((dur(x) for x in loop['ch'][:i]), F(0))
+        for k in range(loop['rep']):
+            for j in range(c['rep']):
+                out += [(n, F(b) + off + k * body(loop) + j * body(c), F(l)) for n, b, l in c['ms']]
+    return sorted(out, key=lambda w: (str(w[0]), w[1], w[2]))
+
+
 def run_vol(case, build_pt, num, windows):
     singles = []
     pt = build_pt(case['pt'], singles, case.get('share', False))
@@ -544,6 +605,8 @@ def run_vol(case, build_pt, num, windows):
     if prog is None:
         return {'none': True}
     obs = {'ws1': windows(prog)}
+    if case.get('side') == 'guard':
+        obs['tree1'] = shape_json(prog)
     if case.get('side') == 'corr':
         # cleanup() of a program with volatile counts (merging a single child into / out of a volatile repetition)
         try:
@@ -556,6 +619,8 @@ def run_vol(case, build_pt, num, windows):
             obs['wsv_clean'] = ['crash', type(e).__name__]
     _update_all(prog, {k: env2[k] for k in case['vol']})
     obs['ws2'] = windows(prog)
+    if case.get('side') == 'guard':
+        obs['tree2'] = shape_json(prog)
     from qupulse.plotting import _render_loop
     try:
         rm = [[n, _fj(b), _fj(l)] for n, b, l in _render_loop(prog, render_measurements=True)[1]]
